@@ -14,13 +14,39 @@ import (
 type verifPkg struct {
 	ns      string
 	imports []int
+	dir     string // set by harnesses living in other packages (their own scratch root); "" = verifPath("/pk/p<i>")
 }
 
 var verifPkgs []verifPkg
 
-func verifDir(i int) string { return verifPath(fmt.Sprintf("/pk/p%d", i)) }
+func verifDir(i int) string {
+	if i < len(verifPkgs) && verifPkgs[i].dir != "" {
+		return verifPkgs[i].dir
+	}
+	return verifPath(fmt.Sprintf("/pk/p%d", i))
+}
+
+// VerifC18SetStore installs the in-memory package store read by the seam replacements below on behalf of
+// a harness in another package (internal/cmd: zz_verif_c18.go), which owns the symbolic choices, the
+// scratch directory and the assertions.  dirs[i] is package i's directory, imports[i] its import list.
+func VerifC18SetStore(dirs []string, ns []string, imports [][]int) {
+	verifPkgs = make([]verifPkg, len(dirs))
+	for i := range dirs {
+		verifPkgs[i] = verifPkg{ns: ns[i], imports: imports[i], dir: dirs[i]}
+	}
+}
+
+// Graph-theoretic specification of the installed store, for harnesses in other packages.
+func VerifC18Reachable() []bool { return verifReachable() }
+func VerifC18HasCycle() bool    { return verifHasCycle() }
+
+// VerifReadPkgHook, when set by a harness (C20), supplies the result of the readPackageInfo seam.
+var VerifReadPkgHook func(directory string) (*PackageInfo, error)
 
 func verifRepl_readPackageInfo(directory string) (*PackageInfo, error) {
+	if VerifReadPkgHook != nil {
+		return VerifReadPkgHook(directory)
+	}
 	for i := range verifPkgs {
 		if verifDir(i) == directory {
 			info := &PackageInfo{FilePath: filepath.Join(directory, PackageFileName), Namespace: verifPkgs[i].ns}
@@ -126,26 +152,67 @@ func verifShortestDepth() []int {
 	return d
 }
 
-// VerifC18Graph: all import graphs over n packages (adjacency and list order are harness choices,
-// namespaces are symbolic strings from a pool of n+... names).
-func VerifC18Graph(n int, maxOut int) {
-	pool := []string{"Aa", "Bb", "Cc", "Dd"}[:n]
-	verifPkgs = make([]verifPkg, n)
-	for i := 0; i < n; i++ {
-		verifPkgs[i].ns = verifOneOf(fmt.Sprintf("ns%d", i), pool...)
-		k := verifChoose(fmt.Sprintf("nimports%d", i), maxOut+1)
-		for c := 0; c < k; c++ {
-			j := verifChoose(fmt.Sprintf("imp%d_%d", i, c), n)
-			verifAssume(j != i || true)
-			verifPkgs[i].imports = append(verifPkgs[i].imports, j)
+// verifNamespace: a symbolic namespace name from a finite pool.  The solver decides which pool member it is
+// before the graph is chosen, so that the (string-theory) namespace decisions sit at the root of the decision
+// tree and are shared by all graphs instead of being re-decided below every graph.
+func verifNamespace(label string, pool []string) string {
+	s := verifOneOf(label, pool...)
+	for _, lit := range pool {
+		if s == lit {
+			return lit
 		}
 	}
+	verifAssume(false)
+	return s
+}
+
+// verifPermute returns the k-th permutation (factorial number system) of sel.
+func verifPermute(sel []int, k int) []int {
+	rest := append([]int{}, sel...)
+	var out []int
+	for n := len(rest); n > 0; n-- {
+		f := verifFactorial(n - 1)
+		idx := k / f
+		k %= f
+		out = append(out, rest[idx])
+		rest = append(rest[:idx], rest[idx+1:]...)
+	}
+	return out
+}
+
+func verifFactorial(n int) int {
+	f := 1
+	for m := 2; m <= n; m++ {
+		f *= m
+	}
+	return f
+}
+
+const (
+	verifDepthBound = 250     // call frames below the call site (the loader's own nesting limit is 10 packages)
+	verifStepBound  = 1000000 // SSA instructions
+)
+
+// verifLoadAndCheck: the obligations shared by the graph families below, on the installed store.
+// Termination is an obligation, not an engine budget: LoadPackage runs under verifBounded (a call-depth and
+// instruction bound far above what a graph of <= 5 packages can need; natively a child process under a
+// wall-clock limit), and running out of either bound fails `terminates-without-panic`.
+func verifLoadAndCheck() {
+	n := len(verifPkgs)
 	verifMaterialise()
 	var info *PackageInfo
 	var err error
-	msg, panicked := verifPanics(func() { info, err = LoadPackage(verifDir(0)) })
+	var msg string
+	var panicked bool
+	completed := verifBounded(func() {
+		msg, panicked = verifPanics(func() { info, err = LoadPackage(verifDir(0)) })
+	}, verifDepthBound, verifStepBound)
+	verifOut("terminates", completed)
 	verifOut("panic", msg)
-	verifAssert("terminates-without-panic", !panicked)
+	verifAssert("terminates-without-panic", completed && !panicked)
+	if !completed || panicked {
+		return
+	}
 
 	reach := verifReachable()
 	cyc := verifHasCycle()
@@ -182,83 +249,8 @@ func VerifC18Graph(n int, maxOut int) {
 			verifAssert("no-duplicates", refs[a] != refs[b] && refs[a].Namespace != refs[b].Namespace)
 		}
 	}
-	// every import edge of every collected package is resolved to the package object of its target directory
-	var check func(p *PackageInfo, depth int)
-	check = func(p *PackageInfo, depth int) {
-		if depth > n {
-			return
-		}
-		for _, imp := range p.Imports {
-			verifAssert("import-resolved", imp.Package != nil && filepath.Base(imp.Package.PackageDir()) == filepath.Base(imp.Url))
-			if imp.Package != nil {
-				check(imp.Package, depth+1)
-			}
-		}
-	}
-	check(info, 0)
-	verifReach("c18-accepted")
-}
-
-// VerifC18Dag: node i imports a symbolic subset of the later nodes (ascending or descending list
-// order), plus optionally one arbitrary extra edge (which may close a cycle); distinct namespaces.
-func VerifC18Dag(n int) {
-	verifPkgs = make([]verifPkg, n)
-	for i := 0; i < n; i++ {
-		verifPkgs[i].ns = fmt.Sprintf("N%c", 'a'+i)
-		var sel []int
-		for j := i + 1; j < n; j++ {
-			if verifChoose(fmt.Sprintf("edge%d_%d", i, j), 2) == 1 {
-				sel = append(sel, j)
-			}
-		}
-		if len(sel) > 1 && verifChoose(fmt.Sprintf("desc%d", i), 2) == 1 {
-			for a, b := 0, len(sel)-1; a < b; a, b = a+1, b-1 {
-				sel[a], sel[b] = sel[b], sel[a]
-			}
-		}
-		verifPkgs[i].imports = sel
-	}
-	// the last package's namespace is symbolic: it may collide with any other package's
-	names := make([]string, n)
-	for i := range names {
-		names[i] = verifPkgs[i].ns
-	}
-	verifPkgs[n-1].ns = verifOneOf("ns-last", names...)
-	if verifChoose("extra-edge", 2) == 1 {
-		a := verifChoose("extra-from", n)
-		b := verifChoose("extra-to", n)
-		verifPkgs[a].imports = append(verifPkgs[a].imports, b)
-	}
-	verifMaterialise()
-	var info *PackageInfo
-	var err error
-	_, panicked := verifPanics(func() { info, err = LoadPackage(verifDir(0)) })
-	verifAssert("terminates-without-panic", !panicked)
-	reach := verifReachable()
-	conflict := false
-	for i := 0; i+1 < n; i++ {
-		if reach[i] && reach[n-1] && verifPkgs[i].ns == verifPkgs[n-1].ns {
-			conflict = true
-		}
-	}
-	if verifHasCycle() || conflict {
-		verifAssert("cycle-or-conflict-rejected", err != nil)
-		verifReach("c18-dag-rejected")
-		return
-	}
-	verifAssert("acyclic-accepted", err == nil)
-	if err != nil {
-		return
-	}
-	refs := info.GetAllReferencedPackages()
-	count := 0
-	for i := 1; i < n; i++ {
-		if reach[i] {
-			count++
-		}
-	}
-	verifAssert("each-reachable-once", len(refs) == count)
-	// a package reached along several paths is one object
+	// every import edge of every collected package is resolved to the package object of its target directory,
+	// and a package reached along several paths is one object
 	byDir := map[string]*PackageInfo{}
 	var check func(p *PackageInfo, depth int)
 	check = func(p *PackageInfo, depth int) {
@@ -278,7 +270,62 @@ func VerifC18Dag(n int) {
 		}
 	}
 	check(info, 0)
-	verifReach("c18-dag-accepted")
+	verifReach("c18-accepted")
+}
+
+// VerifC18Graph: all import multigraphs over n packages: every import list of length <= maxOut over all
+// packages (so every list order, repeated imports and self-imports), namespaces symbolic from a pool of n.
+func VerifC18Graph(n int, maxOut int) {
+	pool := []string{"Aa", "Bb", "Cc", "Dd"}[:n]
+	verifPkgs = make([]verifPkg, n)
+	for i := 0; i < n; i++ {
+		verifPkgs[i].ns = verifNamespace(fmt.Sprintf("ns%d", i), pool)
+	}
+	for i := 0; i < n; i++ {
+		k := verifChoose(fmt.Sprintf("nimports%d", i), maxOut+1)
+		for c := 0; c < k; c++ {
+			verifPkgs[i].imports = append(verifPkgs[i].imports, verifChoose(fmt.Sprintf("imp%d_%d", i, c), n))
+		}
+	}
+	verifLoadAndCheck()
+}
+
+// VerifC18Dag: node i imports a symbolic subset of the later nodes in every list order, plus optionally one
+// arbitrary extra edge (which may close a cycle, repeat an import or be a self-import) listed first or last
+// by its importer; the last package's namespace is symbolic (it may collide with any other).
+func VerifC18Dag(n int) {
+	verifPkgs = make([]verifPkg, n)
+	names := make([]string, n)
+	for i := 0; i < n; i++ {
+		names[i] = fmt.Sprintf("N%c", 'a'+i)
+	}
+	nsLast := verifNamespace("ns-last", names)
+	for i := 0; i < n; i++ {
+		verifPkgs[i].ns = names[i]
+		var sel []int
+		for j := i + 1; j < n; j++ {
+			if verifChoose(fmt.Sprintf("edge%d_%d", i, j), 2) == 1 {
+				sel = append(sel, j)
+			}
+		}
+		if len(sel) > 1 {
+			sel = verifPermute(sel, verifChoose(fmt.Sprintf("order%d", i), verifFactorial(len(sel))))
+		}
+		verifPkgs[i].imports = sel
+	}
+	verifPkgs[n-1].ns = nsLast
+	if verifChoose("extra-edge", 2) == 1 {
+		a := verifChoose("extra-from", n)
+		b := verifChoose("extra-to", n)
+		at := 0 // listed first, or (when the importer has other imports) last
+		if len(verifPkgs[a].imports) > 0 && verifChoose("extra-last", 2) == 1 {
+			at = len(verifPkgs[a].imports)
+		}
+		imp := append([]int{}, verifPkgs[a].imports[:at]...)
+		imp = append(imp, b)
+		verifPkgs[a].imports = append(imp, verifPkgs[a].imports[at:]...)
+	}
+	verifLoadAndCheck()
 }
 
 // VerifC18Depth: a chain of k packages with the loader's real depth limit.
